@@ -26,6 +26,7 @@ class Universe:
     per_module: dict[str, dict[str, Any]] = field(default_factory=dict)
     fixture: str | None = None
     acyclic: bool = True
+    typing_fixture: str | None = None  # test-data/unit/fixtures/<name> installed as tmp/typing.pyi
 
     def paths(self) -> list[str]:
         return sorted(self.files)
@@ -259,4 +260,82 @@ U10 = Universe(
     },
 )
 
-ALL = {u.name.split("-")[0]: u for u in (U10, U1, U2, U3, U4, U4b, U5, U6, U7, U8, U9)}
+# U11 only-once notes: two modules each with an unresolved import; the "See https://..." note is
+# emitted once per RUN, but error lines are cached per MODULE.
+U11 = Universe(
+    name="U11-onlyonce",
+    files={
+        "tmp/a.py": ["import b\nimport nothere1\n", "import b\nimport nothere1\nx = 1\n"],
+        "tmp/b.py": ["import nothere2\n", "import nothere2\ny = 1\n", "y = 1\n"],
+    },
+    sources=[_m("a")],
+)
+
+# U12 indirect dependencies through type LISTS (argument types, union items, tuple items) where the
+# interesting element comes after a repeated earlier one; d changes, b's interface bytes do not.
+U12 = Universe(
+    name="U12-typelist",
+    fixture="tuple.pyi",
+    files={
+        "tmp/a.py": [
+            "import b\nb.f(1, 2, 3)\n",
+            "import b\nt = b.g()\nr: int = t[2]\n",
+            "import b\nb.h(3)\n",
+        ],
+        "tmp/b.py": [
+            "from typing import Tuple, Union\nfrom d import D\n"
+            "def f(x: int, y: int, z: D) -> None: ...\n"
+            "def g() -> Tuple[int, int, D]: ...\n"
+            "def h(x: Union[int, int, D]) -> None: ...\n",
+        ],
+        "tmp/d.py": [
+            "from typing import Union\nD = Union[int, bytes]\n",
+            "from typing import Union\nD = Union[str, bytes]\n",
+            "D = int\n",
+        ],
+    },
+    sources=[_m("a")],
+)
+
+# U13 TypedDict / NamedTuple / dataclass-like declarations whose ORDER is part of the type.
+U13 = Universe(
+    name="U13-ordered",
+    fixture="dict.pyi",
+    typing_fixture="typing-typeddict.pyi",
+    files={
+        "tmp/a.py": ["from b import x\nreveal_type(x)\n", "from b import x\nreveal_type(x)\ny = 1\n"],
+        "tmp/b.py": [
+            "from typing import TypedDict\nclass TD(TypedDict):\n    b: int\n    a: str\nx: TD\n",
+            "from typing import TypedDict\nclass TD(TypedDict):\n    a: str\n    b: int\nx: TD\n",
+            "from typing import TypedDict\nclass TD(TypedDict, total=False):\n    z: int\n    a: str\n    m: int\nx: TD\n",
+        ],
+    },
+    sources=[_m("a")],
+)
+
+# U14 a submodule that obtains a type of its own ANCESTOR package through another module.
+U14 = Universe(
+    name="U14-ancestor",
+    files={
+        "tmp/p/__init__.py": ["class C:\n    attr: int = 0\n", "class C:\n    attr: str = ''\n"],
+        "tmp/p/sub.py": ["import q\nx: int = q.get().attr\n", "import q\nx: int = q.get().attr\ny = 1\n"],
+        "tmp/q.py": ["import p\ndef get() -> p.C:\n    return p.C()\n"],
+        "tmp/a.py": ["import p.sub\n"],
+    },
+    sources=[_m("a")],
+)
+
+# U15 the same module moves between m.py and m.pyi with IDENTICAL content (errors carry the path).
+_M_TEXT = "def f() -> int: ...\nx: int = ''\n"
+U15 = Universe(
+    name="U15-pathswitch",
+    files={
+        "tmp/a.py": ["import m\nreveal_type(m.f())\n"],
+        "tmp/m.py": [_M_TEXT, None],
+        "tmp/m.pyi": [None, _M_TEXT],
+    },
+    sources=[_m("a")],
+    multi={"rename m.py->m.pyi": {"tmp/m.py": 1, "tmp/m.pyi": 1}, "rename m.pyi->m.py": {"tmp/m.py": 0, "tmp/m.pyi": 0}},
+)
+
+ALL = {u.name.split("-")[0]: u for u in (U10, U11, U12, U13, U14, U15, U1, U2, U3, U4, U4b, U5, U6, U7, U8, U9)}
